@@ -343,3 +343,117 @@ func privateIdentifierProducers(p *core.Prog, res *core.Result) {
 	}
 	res.Count("parser functions returning a private name as an expression", nProd)
 }
+
+// R-RESTTARGET (C01): the two functions that reinterpret a literal as an *assignment* pattern store
+// its rest element (`[...r] = `, `({...r} = `) into ArrayPattern.Rest / ObjectPattern.Rest only
+// after a validator (a parser function that can report a syntax error) has seen it. The array
+// version did, the object version stored the raw spread operand: `({...f()} = {})` reached the
+// compiler's emitRef, which answers with the internal diagnostic "Compiler bug: Cannot emit
+// reference for this type of expression".
+var RestTarget = &core.Rule{Name: "R-RESTTARGET", Run: runRestTarget,
+	Doc: "a value stored into ArrayPattern.Rest / ObjectPattern.Rest by the parser is nil or the result of a parser function that can report a syntax error, never the raw operand of a spread element"}
+
+func runRestTarget(p *core.Prog) *core.Result {
+	res := core.NewResult("R-RESTTARGET", 4)
+	var restFields []*types.Var
+	for _, tn := range []string{"ArrayPattern", "ObjectPattern"} {
+		fv, err := p.Field(core.GojaPath+"/ast", tn, "Rest")
+		if err != nil {
+			return res.Fail(err)
+		}
+		restFields = append(restFields, fv)
+	}
+	isRest := func(fv *types.Var) bool {
+		for _, r := range restFields {
+			if r == fv {
+				return true
+			}
+		}
+		return false
+	}
+	// validators: parser functions that (transitively, depth 2) call an error-reporting method
+	reports := map[*ssa.Function]bool{}
+	isErr := func(sc *ssa.Function) bool {
+		return sc != nil && sc.Pkg != nil && sc.Pkg.Pkg.Path() == core.GojaPath+"/parser" && strings.HasPrefix(sc.Name(), "error")
+	}
+	for round := 0; round < 3; round++ {
+		for _, f := range p.Funcs {
+			if reports[f] || f.Pkg == nil || f.Pkg.Pkg.Path() != core.GojaPath+"/parser" {
+				continue
+			}
+			core.AllInstrs(f, func(in ssa.Instruction) {
+				if c, ok := in.(ssa.CallInstruction); ok {
+					if sc := c.Common().StaticCallee(); isErr(sc) || reports[sc] {
+						reports[f] = true
+					}
+				}
+			})
+		}
+	}
+	var validated func(v ssa.Value, seen map[ssa.Value]bool) (bool, string)
+	validated = func(v ssa.Value, seen map[ssa.Value]bool) (bool, string) {
+		if seen[v] {
+			return true, ""
+		}
+		seen[v] = true
+		switch x := v.(type) {
+		case *ssa.Const:
+			return x.IsNil(), "constant"
+		case *ssa.Call:
+			if sc := x.Call.StaticCallee(); sc != nil && reports[sc] {
+				return true, ""
+			}
+			return false, "result of a call that cannot report an error"
+		case *ssa.Phi:
+			for _, e := range x.Edges {
+				if ok, why := validated(e, seen); !ok {
+					return false, why
+				}
+			}
+			return true, ""
+		case *ssa.ChangeInterface:
+			return validated(x.X, seen)
+		case *ssa.MakeInterface:
+			return validated(x.X, seen)
+		case *ssa.UnOp:
+			if fa, ok := x.X.(*ssa.FieldAddr); ok {
+				fv := core.FieldOf(fa)
+				if isRest(fv) {
+					return true, "" // copied from a pattern that was validated when it was built
+				}
+				return false, "raw load of ." + fv.Name()
+			}
+			if a, ok := x.X.(*ssa.Alloc); ok {
+				for _, r := range core.Referrers(a) {
+					if st, ok := r.(*ssa.Store); ok && st.Addr == a {
+						if ok2, why := validated(st.Val, seen); !ok2 {
+							return false, why
+						}
+					}
+				}
+				return true, ""
+			}
+		}
+		return false, fmt.Sprintf("%T", v)
+	}
+	n := 0
+	for _, f := range p.Funcs {
+		if f.Pkg == nil || f.Pkg.Pkg.Path() != core.GojaPath+"/parser" {
+			continue
+		}
+		core.AllInstrs(f, func(in ssa.Instruction) {
+			st, ok := in.(*ssa.Store)
+			if !ok || !isRest(core.FieldOf(st.Addr)) {
+				return
+			}
+			n++
+			key := fmt.Sprintf("parser.%s:rest element validated before it is stored#%d", core.FuncName(f), n)
+			if ok, why := validated(st.Val, map[ssa.Value]bool{}); ok {
+				res.OK(key, p.Pos(st.Pos()), "nil or the result of a validating parser function")
+			} else {
+				res.Bad(key, p.Pos(st.Pos()), "the rest element stored into the pattern is "+why+": an expression that is not a valid assignment target reaches the compiler, which answers with an internal 'Compiler bug' diagnostic")
+			}
+		})
+	}
+	return res
+}
